@@ -468,27 +468,27 @@ def rule_kind_guard(chk: Check):
         chk.fail("A6-kind-u", "Parser._concat_strings_in_constant:kind", where, "no single guard sets Constant.kind = 'u'")
         return
 
-    class Sub(ast.NodeTransformer):
-        def visit_Attribute(self, node):
-            if norm_stmt(node) == "parts[0].string":
-                return ast.copy_location(ast.Name("_s", ast.Load()), node)
-            return self.generic_visit(node)
-
-    test = Sub().visit(copy.deepcopy(guards[0].test))
-    ast.fix_missing_locations(test)
+    import types
+    test = guards[0].test
     folded = constfold.fold_tokenize()
     prefixes = sorted(folded.ns["_all_string_prefixes"]())  # type: ignore[attr-defined]
+    listname = [a.arg for a in fn.args.args][-1]
     bad = []
     for p in prefixes:
         for q in ('"', "'", '"""'):
             tok = f"{p}{q}x{q}"
-            try:
-                got = bool(constfold.fold_expr(test, {"_s": tok}))
-            except Exception as e:
-                raise AnalysisError(f"kind guard `{norm_stmt(guards[0].test)}` cannot be evaluated: {e}")
-            if got != tok.startswith("u"):
-                bad.append((tok, got))
-    chk.units["string_prefixes_evaluated"] = len(prefixes) * 3
+            # the literal alone, and followed by a second literal of another kind (the first one decides)
+            for rest in ([], ['u"y"'], ['"y"'], ['U"y"']):
+                parts = [types.SimpleNamespace(string=t) for t in [tok] + rest]
+                try:
+                    got = bool(constfold.fold_expr(test, {listname: parts}, data_attrs=("string",)))
+                except Exception as e:
+                    chk.fail("A6-kind-u", "Parser._concat_strings_in_constant:kind", where,
+                             f"the guard `{norm_stmt(test)}` that sets kind='u' cannot be evaluated over the string prefixes: {e}")
+                    return
+                if got != tok.startswith("u"):
+                    bad.append((" ".join([tok] + rest), got))
+    chk.units["string_prefixes_evaluated"] = len(prefixes) * 12
     chk.require(not bad, "A6-kind-u", "Parser._concat_strings_in_constant:kind", where,
                 f"the guard `{norm_stmt(guards[0].test)}` sets kind='u' differently from CPython (which looks for a lower-case u as the "
                 f"first character) on {[b[0] for b in bad][:4]}")
@@ -524,7 +524,7 @@ def run(chk: Check):
         head = key.split("#", 1)[0].split(":", 1)[0]
         return head not in ir.rules or head in live
 
-    tr.feed(chk, {"A1-schema": "A1-schema", "A5-loc-key": "A5-loc-key", "A5-loc-pair": "A5-loc-pair",
+    tr.feed(chk, {"A1-schema": "A1-schema", "A5-loc-key": "A5-loc-key", "A5-loc-pair": "A5-loc-pair", "A5-loc-order": "A5-loc-order",
                   "A6-scalar-kind": "A6-scalar-kind"}, live_key)
     rule_a2(chk, ir, live)
     rule_a3(chk, ir, live)
@@ -536,6 +536,9 @@ def run(chk: Check):
     rule_combinators(chk)
     rule_lookahead_cover(chk, ir)
     rule_column_unit(chk)
+    rule_result_span(chk, ir)
+    from .c02 import rule_x7
+    rule_x7(chk)
     # Tree equality with CPython rests on the token stream and on node well-formedness: the rule sets of C04 (ASDL shape,
     # contexts, locations), C08 (token text/positions) and C09 (lexical agreement with CPython) are necessary conditions of
     # C01 as well and are evaluated here under their own rule ids.
@@ -642,6 +645,34 @@ def _eval_paths(ps, env):
                 return None
             return env.ev(ast.parse(val, mode="eval").body)
     return None
+
+
+def rule_is_blank(chk: Check, R: str = "R-combinators"):
+    # the token filter between tokenizer and parser: decided as a truth table over a finite domain (token kind x blank text x
+    # raw-capture flag x "previous kept token is NEWLINE"), so the shape of the function is irrelevant
+    from ..pyflow import Index
+    f = Index().get("Tokenizer.is_blank")
+    chk.count(R)
+    from ..pyflow import stmt_paths
+    kinds = sorted(repo.token_enum_names())
+    bad = []
+    try:
+        ps = stmt_paths(f.node.body)
+        tokparam = [a.arg for a in f.node.args.args][1]
+        for kind in kinds:
+            for blank in (False, True):
+                for raw in (False, True):
+                    for prev in (None, "NEWLINE", "NAME"):
+                        got = _eval_paths(ps, _BlankEnv(tokparam, kind, blank, raw, prev))
+                        want = (kind in ("NL", "COMMENT") or (kind == "WS" and not raw) or (kind == "ERRORTOKEN" and blank)
+                                or (kind == "NEWLINE" and prev == "NEWLINE"))
+                        if got is None or bool(got) != want:
+                            bad.append((kind, "blank" if blank else "text", "raw" if raw else "normal", prev, got))
+    except AnalysisError as e:
+        bad.append(("not evaluable", str(e)))
+    chk.require(not bad, R, "Tokenizer.is_blank", f.where,
+                "the token filter must drop exactly NL, COMMENT, WS (outside raw capture), blank ERRORTOKENs and a NEWLINE that directly "
+                f"follows a NEWLINE; it differs on (kind, text, mode, previous, result) = {bad[:3]}")
 
 
 # ------------------------------------------------------------------ runtime combinators the generated code relies on
@@ -759,30 +790,7 @@ def rule_combinators(chk: Check):
     chk.require(paths(f) == {(("cond", "sep_func(*sep_args) and (v0 := self.seq_alts(func))", True), ("return", "v0")),
                              (("cond", "sep_func(*sep_args) and (v0 := self.seq_alts(func))", False), ("return", "None"))}, R,
                 "Parser.sep_repeated", f.where, "a separated repetition step is separator then element, returning the element")
-    # the token filter between tokenizer and parser: decided as a truth table over a finite domain (token kind x blank text x
-    # raw-capture flag x "previous kept token is NEWLINE"), so the shape of the function is irrelevant
-    f = fn("Tokenizer.is_blank")
-    chk.count(R)
-    from ..pyflow import stmt_paths
-    kinds = sorted(repo.token_enum_names())
-    bad = []
-    try:
-        ps = stmt_paths(f.node.body)
-        tokparam = [a.arg for a in f.node.args.args][1]
-        for kind in kinds:
-            for blank in (False, True):
-                for raw in (False, True):
-                    for prev in (None, "NEWLINE", "NAME"):
-                        got = _eval_paths(ps, _BlankEnv(tokparam, kind, blank, raw, prev))
-                        want = (kind in ("NL", "COMMENT") or (kind == "WS" and not raw) or (kind == "ERRORTOKEN" and blank)
-                                or (kind == "NEWLINE" and prev == "NEWLINE"))
-                        if got is None or bool(got) != want:
-                            bad.append((kind, "blank" if blank else "text", "raw" if raw else "normal", prev, got))
-    except AnalysisError as e:
-        bad.append(("not evaluable", str(e)))
-    chk.require(not bad, R, "Tokenizer.is_blank", f.where,
-                "the token filter must drop exactly NL, COMMENT, WS (outside raw capture), blank ERRORTOKENs and a NEWLINE that directly "
-                f"follows a NEWLINE; it differs on (kind, text, mode, previous, result) = {bad[:3]}")
+    rule_is_blank(chk, R)
     # position bookkeeping of the token cache
     f = fn("Tokenizer.getnext")
     chk.count(R)
@@ -873,6 +881,29 @@ def _first_of_items(items, fl_item, first, item_n):
         if not item_n(ni.item):
             break
     return out
+
+
+def rule_result_span(chk: Check, ir, rule_id: str = "A5-result-span"):
+    """The node an alternative returns spans the alternative: a top-level action call that takes its location as `**kwargs`
+    must be given the alternative's own span (LOCATIONS = from the first token of the alternative to the last one consumed),
+    unless the alternative consists of one token and passes that token's location.  A span borrowed from one item of a longer
+    alternative (`'$' a=NAME {..(**a.loc())}`) makes the node shorter than its construct."""
+    from ..ir import Cut, Look
+    for r, key, a in actions.all_alts(ir.rules):
+        act = a.action
+        if act is None or not isinstance(act, ast.Call) or r.name.startswith("invalid_"):
+            continue
+        stars = [k for k in act.keywords if k.arg is None]
+        if not stars:
+            continue
+        chk.count(rule_id)
+        txt = [norm_stmt(k.value) for k in stars]
+        consuming = [ni for ni in a.items if not isinstance(ni.item, (Look, Cut))]
+        single = len(consuming) == 1 and consuming[0].name is not None and txt == [f"{consuming[0].name}.loc()"]
+        chk.require(txt == ["self.span(_lnum, _col)"] or single, rule_id, f"{key}:{norm_stmt(act.func)}", str(a.pos),
+                    f"the result of `{r.name}` is located by `**{txt[0]}` instead of the span of the whole alternative "
+                    f"`{' '.join(str(i) for i in a.items)[:80]}`: the node does not cover its construct")
+    chk.floor(rule_id, 120)
 
 
 def rule_column_unit(chk: Check, only_consistent: bool = False):
